@@ -61,12 +61,14 @@ class LCtx(CCtx):
 
 
 class LoopSpec:
-    def __init__(self, inv=None, stable_iter=True, variant=None, locals_ty=None, note=''):
+    def __init__(self, inv=None, stable_iter=True, variant=None, locals_ty=None, note='', iter_src=None):
         """inv(c: LCtx) -> list[(name, formula)];  stable_iter: the iterated container is not modified by the body
         (checked as part of the invariant; licenses done == bag at exit); variant(c) for while loops;
         locals_ty: {name: T} static hints for locals first assigned in the loop."""
         self.inv = inv or (lambda c: [])
         self.stable_iter, self.variant, self.locals_ty, self.note = stable_iter, variant, locals_ty or {}, note
+        self.iter_src = iter_src      # expected source text of the iterated expression: a loop that iterates something else is a
+                                      # shape mismatch (undecided), never checked against the wrong invariant
 
 
 class Contract:
